@@ -142,7 +142,7 @@ var drivers = map[string]driver{
 		_, _ = rc.txC.HandleTransactionsRequest(context.Background(), gp2p.Data{})
 	},
 	"handler:UtxosController.HandleUtxosRequest": func(rc *runCtx, slot int) {
-		so := rc.w.Split[int(rc.progress[slot].Load())%len(rc.w.Split)]
+		so := rc.w.Split[int(rc.progress[slot].Load())%hostSplit]
 		_, _ = rc.utxosC.HandleUtxosRequest(context.Background(), req(so.by.Address))
 	},
 	"api:Engine.Stop": func(rc *runCtx, _ int) {
